@@ -65,12 +65,41 @@ type endpoint struct {
 	BodyRef string  `json:"body_ref,omitempty"`
 	Resps   []resp  `json:"resps"`
 }
+type pathLevel struct {
+	Path   string  `json:"path"`
+	Params []param `json:"params"`
+}
 type doc struct {
 	Kind    string     `json:"kind"` // always "doc"
 	Format  string     `json:"format"`
 	Stream  string     `json:"stream"`
 	Schemas []schema   `json:"schemas"`
 	Eps     []endpoint `json:"eps,omitempty"`
+	// parameters declared on the path item: every operation of the path inherits them, an operation-level
+	// parameter with the same (name, in) overrides
+	PathLevel []pathLevel `json:"path_level,omitempty"`
+}
+
+// effectiveParams: what OpenAPI says the operation's parameters are (path-level ones unless overridden, then its own)
+func (d doc) effectiveParams(e endpoint) []param {
+	var out []param
+	for _, pl := range d.PathLevel {
+		if pl.Path != e.Path {
+			continue
+		}
+		for _, p := range pl.Params {
+			over := false
+			for _, q := range e.Params {
+				if q.Name == p.Name && q.In == p.In {
+					over = true
+				}
+			}
+			if !over {
+				out = append(out, p)
+			}
+		}
+	}
+	return append(out, e.Params...)
 }
 
 // expected Sysl primitive of a foreign primitive, per format: kind and bit width
@@ -164,8 +193,7 @@ func renderOAS(d doc) string {
 			item = map[string]interface{}{}
 			paths[e.Path] = item
 		}
-		var ps []interface{}
-		for _, p := range e.Params {
+		renderParam := func(p param) interface{} {
 			pm := map[string]interface{}{"name": p.Name, "in": p.In}
 			if p.Required || p.In == "path" {
 				pm["required"] = true
@@ -177,7 +205,22 @@ func renderOAS(d doc) string {
 					pm[k] = v
 				}
 			}
-			ps = append(ps, pm)
+			return pm
+		}
+		if _, done := item["parameters"]; !done {
+			for _, pl := range d.PathLevel {
+				if pl.Path == e.Path && len(pl.Params) > 0 {
+					var pps []interface{}
+					for _, p := range pl.Params {
+						pps = append(pps, renderParam(p))
+					}
+					item["parameters"] = pps
+				}
+			}
+		}
+		var ps []interface{}
+		for _, p := range e.Params {
+			ps = append(ps, renderParam(p))
 		}
 		op := map[string]interface{}{}
 		if e.BodyRef != "" {
@@ -789,7 +832,20 @@ func (j *judgeCtx) checkEndpoints(app *sysl.Application) {
 			j.fail("endpoint-rest:"+j.d.Format, fmt.Sprintf("%s: rest_params are %v", key, rp))
 			continue
 		}
-		for _, p := range e.Params {
+		eff := j.d.effectiveParams(e)
+		nq, nu := 0, 0
+		for _, p := range eff {
+			switch p.In {
+			case "query":
+				nq++
+			case "path":
+				nu++
+			}
+		}
+		if len(rp.GetQueryParam()) != nq || len(rp.GetUrlParam()) != nu {
+			j.fail("extra-param:"+j.d.Format, fmt.Sprintf("%s: %d query and %d path parameters compiled for %d and %d in the document", key, len(rp.GetQueryParam()), len(rp.GetUrlParam()), nq, nu))
+		}
+		for _, p := range eff {
 			exp := oasPrims[p.Prim]
 			var got *sysl.Type
 			switch p.In {
@@ -814,6 +870,16 @@ func (j *judgeCtx) checkEndpoints(app *sysl.Application) {
 				}
 			}
 			if got == nil {
+				twin := false
+				for _, q := range eff {
+					if q.Name == p.Name && q.In != p.In {
+						twin = true
+					}
+				}
+				if twin {
+					j.fail("missing-param:"+j.d.Format+":same-name-other-location", fmt.Sprintf("%s: %s parameter %q is missing: another parameter of the same name in a different location replaced it", key, p.In, p.Name))
+					continue
+				}
 				j.fail("missing-param:"+j.d.Format+":"+p.In, fmt.Sprintf("%s: %s parameter %q is missing", key, p.In, p.Name))
 				continue
 			}
@@ -888,6 +954,7 @@ type docObs struct {
 	Same     bool            `json:"same"`
 	Failures [][2]string     `json:"failures"` // key, what
 	Proj     json.RawMessage `json:"proj,omitempty"`
+	EpProj   json.RawMessage `json:"ep_proj,omitempty"`
 }
 
 func firstLine(s string) string {
@@ -947,6 +1014,7 @@ func judgeDocLocal(d doc) docObs {
 	j.checkSchemas(app)
 	j.checkEndpoints(app)
 	o.Proj = projectApp(d, app)
+	o.EpProj = projectEndpoints(app)
 	second := runImport(d, text, fn)
 	o.Same = second.text == imp.text && second.err == imp.err
 	if !o.Same {
@@ -1136,6 +1204,101 @@ func projectApp(d doc, app *sysl.Application) json.RawMessage {
 	sort.Slice(out, func(i, j int) bool { return out[i].Name < out[j].Name })
 	b, _ := json.Marshal(out)
 	return b
+}
+
+// projectEndpoints: per endpoint, the parameters by location (what Foreign/EndpointSpec.v predicts)
+type epOut struct {
+	Key    string     `json:"k"`
+	Query  []fieldOut `json:"q"`
+	URL    []fieldOut `json:"u"`
+	Header []fieldOut `json:"h"`
+	Body   []string   `json:"b"`
+}
+
+func projectEndpoints(app *sysl.Application) json.RawMessage {
+	var out []epOut
+	for k, ep := range app.Endpoints {
+		x := epOut{Key: k}
+		for _, q := range ep.GetRestParams().GetQueryParam() {
+			x.Query = append(x.Query, fieldOut{q.GetName(), projField(q.GetType())})
+		}
+		for _, q := range ep.GetRestParams().GetUrlParam() {
+			x.URL = append(x.URL, fieldOut{q.GetName(), projField(q.GetType())})
+		}
+		for _, q := range ep.GetParam() {
+			f := projField(q.GetType())
+			isBody, isHeader := false, false
+			for _, pt := range f.Pats {
+				isBody = isBody || pt == "body"
+				isHeader = isHeader || pt == "header"
+			}
+			switch {
+			case isHeader:
+				x.Header = append(x.Header, fieldOut{f.NameAt, f})
+			case isBody:
+				x.Body = append(x.Body, f.Ref)
+			default:
+				x.Body = append(x.Body, "?"+q.GetName())
+			}
+		}
+		out = append(out, x)
+	}
+	sort.Slice(out, func(i, j int) bool { return out[i].Key < out[j].Key })
+	b, _ := json.Marshal(out)
+	return b
+}
+
+func gParam(p param) string {
+	m := oasPrimJSON(p.Prim)
+	f, _ := m["format"].(string)
+	return fmt.Sprintf("mkq %s %s %s %s %s", gb(p.Name), common.GString(p.In), common.GBool(p.Required || p.In == "path"),
+		common.GString(m["type"].(string)), common.GString(f))
+}
+
+func gEndpoints(d doc) string {
+	var eps []string
+	for _, e := range d.Eps {
+		var common_, own []string
+		for _, pl := range d.PathLevel {
+			if pl.Path == e.Path {
+				for _, p := range pl.Params {
+					common_ = append(common_, gParam(p))
+				}
+			}
+		}
+		for _, p := range e.Params {
+			own = append(own, gParam(p))
+		}
+		body := "None"
+		if e.BodyRef != "" {
+			body = "(Some " + gb(e.BodyRef) + ")"
+		}
+		eps = append(eps, fmt.Sprintf("mke %s %s %s %s %s", gb(e.Path), common.GString(e.Method), common.GList(common_), common.GList(own), body))
+	}
+	return common.GList(eps)
+}
+
+func gEpProj(raw json.RawMessage) (string, bool) {
+	var es []epOut
+	if err := json.Unmarshal(raw, &es); err != nil {
+		return "", false
+	}
+	fl := func(fs []fieldOut) string {
+		var out []string
+		for _, f := range fs {
+			out = append(out, fmt.Sprintf("(%s, %s)", gb(f.Name), gField(f.fieldProj)))
+		}
+		return common.GList(out)
+	}
+	var out []string
+	for _, e := range es {
+		var bs []string
+		for _, x := range e.Body {
+			bs = append(bs, gb(x))
+		}
+		out = append(out, fmt.Sprintf("(%s, mkep %s %s %s %s)", gb(e.Key), fl(e.Query), fl(e.URL), fl(e.Header), common.GList(bs)))
+	}
+	return common.GList(out), true
 }
 
 // ---------------------------------------------------------------- Gallina terms for Foreign/ImportRun.v
